@@ -3,6 +3,7 @@ import BoboVerif.Model.Tcp
 import BoboVerif.Lemmas.Tcp
 import BoboVerif.Props.C15
 import BoboVerif.Lemmas.TcpAccount
+import BoboVerif.Lemmas.TcpRun
 /-!
 C06 — Link failures lose nothing: backlog or full resync restores consistency.
 
@@ -456,5 +457,217 @@ theorem f17_push_between_phases_witness :
     st.queue = [] ∧                                                             -- and is gone from the queue
     st.peers[2]? = some ("c", ⟨1000, 1000, 0, false, [], [], []⟩) := by        -- c: not sent, not stashed
   decide
+
+/-! ---------------------------------------------------------------------------------------------
+## Whole-run accounting: the one-pass accounting lifted to EVERY run (all step sequences)
+
+Definitions and the per-step lemmas are in Lemmas/TcpRun.lean.  `j` is any device index whose entry is
+not the instance itself.  The ghost `missingAfter j s0 missing0 steps` ("what `j` still misses") is a
+fold over the step list that never looks at the backlog or the queue:
+
+  * `push m`                : `missing := missing ++ recs m`            (`recs m = m.c ++ m.h ++ m.u`)
+  * `pass now snap outcome` : `w` = the wire to `j` of this pass;
+        RESYNC and `(outcome j).1 = 0` : `missing := []`                (superseded by the snapshot)
+        SYNC   and `(outcome j).1 = 0` : `missing := missing.filter (· ∉ recs w.payload)`
+        otherwise (nothing sent, PING, any reported failure) : unchanged
+  * `incoming _ _`          : unchanged.
+
+Hypotheses of the run theorems — each one is needed (counter-runs at the end of the section):
+
+  * `hself`  : the entry at index `j` is not the instance's own (the loop skips its own entry: it is never
+               sent anything and nothing is appended to its backlog);
+  * `hlc`    : `0 ≤ last_comms` of `j` in the initial state.  True of every device manager the code can
+               build (constructor: 0; the setter, `contacted` and `clear_last` only write values `≥ 0`) and
+               preserved by every step.  It is what makes a received RESET (`last_comms := 0`) keep `j` in the
+               resync period: from `L - last_comms ≥ period_resync` and `last_comms ≥ 0` follows
+               `L - 0 ≥ period_resync`.  It replaces "`now ≥ period_resync` after a received reset"; no
+               assumption on the sign of `period_resync` and none on epoch clocks is needed;
+  * `hmono`  : `MonoClocks L0 steps` — the DECISION clocks of the passes never go backwards, and the first is
+               `≥ L0` (`L0`: a clock reading before the run; irrelevant when the initial invariant holds by its
+               second disjunct).  Nothing at all is assumed about the clocks read after the sends
+               (`(outcome i).2`): the sequential model records a successful send with the counter seen at the
+               decision of the same pass, so `contacted` always writes, and the invariant does not depend on
+               the value written;
+  * `h0`     : the invariant holds initially — trivially so for `missing0 = []` (`accounting_fresh_run`,
+               whatever the queue and the backlog hold) and for `missing0 = backlog ++ everything queued`
+               (`accounting_pending_run`).
+
+`L` is any clock reading at or after the decision clock of the last pass (`lastNow L0 steps ≤ L`): the
+last decision clock itself (strongest statement), or the last clock read after a send of a monotone clock.
+--------------------------------------------------------------------------------------------- -/
+
+/-- **`accounting_every_run`**: after EVERY run (any interleaving of passes with any outcome vectors,
+queue insertions and incoming messages, RESETs included) whose decision clocks do not go backwards, for
+every device `j` other than self: `last_comms ≥ 0` still, and
+either `j` is in the resync period at every clock `≥ L` (so the only message it can be sent is a RESYNC
+carrying the full snapshot, `first_contact_after_outage_is_resync`),
+or every record `j` still misses is in `j`'s backlog or in a message still queued.
+There is no third case: nothing pushed is ever silently dropped for `j`. -/
+theorem accounting_every_run [DecidableEq Rec] (j : Nat) (s0 : TState Rec) (e0 : String × Peer Rec)
+    (missing0 : List Rec) (L0 : Int)
+    (he0 : s0.peers[j]? = some e0) (hself : e0.1 ≠ s0.self) (hlc : 0 ≤ e0.2.lastComms)
+    (h0 : (∀ now', now' ≥ L0 → InResync s0.cfg now' e0.2) ∨
+          (∀ x ∈ missing0, x ∈ e0.2.stashC ++ e0.2.stashH ++ e0.2.stashU ∨ ∃ m ∈ s0.queue, x ∈ recs m))
+    (steps : List (Step Rec)) (hmono : MonoClocks L0 steps) (L : Int) (hL : lastNow L0 steps ≤ L) :
+    ∃ p, (runState s0 steps).peers[j]? = some (e0.1, p) ∧ 0 ≤ p.lastComms ∧
+      ((∀ now', now' ≥ L → InResync (runState s0 steps).cfg now' p) ∨
+       (∀ x ∈ missingAfter j s0 missing0 steps,
+          x ∈ p.stashC ++ p.stashH ++ p.stashU ∨ ∃ m ∈ (runState s0 steps).queue, x ∈ recs m)) := by
+  have hinit : Acct j e0.1 s0 missing0 L0 := ⟨e0.2, he0, hself, hlc, h0⟩
+  obtain ⟨p, hp, _, hlc', hd⟩ := acct_mono hL (acct_run j e0.1 steps s0 missing0 L0 hmono hinit)
+  exact ⟨p, hp, hlc', hd⟩
+
+/-- the run starts with nothing counted as missing (`missing0 = []`): no assumption on the initial queue
+or backlog, and none relating the initial `last_comms` to the clock. -/
+theorem accounting_fresh_run [DecidableEq Rec] (j : Nat) (s0 : TState Rec) (e0 : String × Peer Rec) (L0 : Int)
+    (he0 : s0.peers[j]? = some e0) (hself : e0.1 ≠ s0.self) (hlc : 0 ≤ e0.2.lastComms)
+    (steps : List (Step Rec)) (hmono : MonoClocks L0 steps) (L : Int) (hL : lastNow L0 steps ≤ L) :
+    ∃ p, (runState s0 steps).peers[j]? = some (e0.1, p) ∧ 0 ≤ p.lastComms ∧
+      ((∀ now', now' ≥ L → InResync (runState s0 steps).cfg now' p) ∨
+       (∀ x ∈ missingAfter j s0 [] steps,
+          x ∈ p.stashC ++ p.stashH ++ p.stashU ∨ ∃ m ∈ (runState s0 steps).queue, x ∈ recs m)) :=
+  accounting_every_run j s0 e0 [] L0 he0 hself hlc (Or.inr (by intro x hx; cases hx)) steps hmono L hL
+
+/-- the run starts from any state, counting as missing everything that is in `j`'s backlog or queued. -/
+theorem accounting_pending_run [DecidableEq Rec] (j : Nat) (s0 : TState Rec) (e0 : String × Peer Rec) (L0 : Int)
+    (he0 : s0.peers[j]? = some e0) (hself : e0.1 ≠ s0.self) (hlc : 0 ≤ e0.2.lastComms)
+    (steps : List (Step Rec)) (hmono : MonoClocks L0 steps) (L : Int) (hL : lastNow L0 steps ≤ L) :
+    ∃ p, (runState s0 steps).peers[j]? = some (e0.1, p) ∧ 0 ≤ p.lastComms ∧
+      ((∀ now', now' ≥ L → InResync (runState s0 steps).cfg now' p) ∨
+       (∀ x ∈ missingAfter j s0 (e0.2.stashC ++ e0.2.stashH ++ e0.2.stashU ++ s0.queue.flatMap recs) steps,
+          x ∈ p.stashC ++ p.stashH ++ p.stashU ∨ ∃ m ∈ (runState s0 steps).queue, x ∈ recs m)) := by
+  refine accounting_every_run j s0 e0 _ L0 he0 hself hlc (Or.inr ?_) steps hmono L hL
+  intro x hx
+  rcases List.mem_append.mp hx with h | h
+  · exact Or.inl h
+  · exact Or.inr (List.mem_flatMap.mp h)
+
+/-- **`nothing_missing_when_idle`**: after any such run, if `j` is not in the resync period at the clock
+`L`, its backlog is empty and the queue is empty, then `j` misses nothing: every change ever pushed (and
+everything counted as missing initially) was handed to the wire for `j` inside a SYNC whose send was
+reported successful, or was superseded by a RESYNC snapshot whose send was reported successful. -/
+theorem nothing_missing_when_idle [DecidableEq Rec] (j : Nat) (s0 : TState Rec) (e0 : String × Peer Rec)
+    (missing0 : List Rec) (L0 : Int)
+    (he0 : s0.peers[j]? = some e0) (hself : e0.1 ≠ s0.self) (hlc : 0 ≤ e0.2.lastComms)
+    (h0 : (∀ now', now' ≥ L0 → InResync s0.cfg now' e0.2) ∨
+          (∀ x ∈ missing0, x ∈ e0.2.stashC ++ e0.2.stashH ++ e0.2.stashU ∨ ∃ m ∈ s0.queue, x ∈ recs m))
+    (steps : List (Step Rec)) (hmono : MonoClocks L0 steps) (L : Int) (hL : lastNow L0 steps ≤ L)
+    (e : String × Peer Rec) (he : (runState s0 steps).peers[j]? = some e)
+    (hidle : ¬ InResync (runState s0 steps).cfg L e.2) (hstash : stashOf e.2 = ([], [], []))
+    (hqueue : (runState s0 steps).queue = []) :
+    missingAfter j s0 missing0 steps = [] := by
+  obtain ⟨p, hp, _, hd⟩ := accounting_every_run j s0 e0 missing0 L0 he0 hself hlc h0 steps hmono L hL
+  rw [he] at hp
+  cases hp
+  simp only [stashOf, Prod.mk.injEq] at hstash
+  obtain ⟨h1, h2, h3⟩ := hstash
+  simp only at h1 h2 h3 hidle
+  rcases hd with hA | hB
+  · exact absurd (hA L (Int.le_refl L)) hidle
+  · apply List.eq_nil_iff_forall_not_mem.mpr
+    intro x hx
+    rcases hB x hx with h | ⟨m, hm, _⟩
+    · rw [h1, h2, h3] at h; cases h
+    · rw [hqueue] at hm; cases hm
+
+/-! ### non-vacuity -/
+
+/-- "a" with peers b (in contact) and c (in contact); default periods; nothing queued. -/
+def runState0 : TState Nat :=
+  ⟨"a", Periods.default, [],
+   [("a", Peer.init false), ("b", ⟨995, 995, 0, false, [], [], []⟩), ("c", ⟨995, 995, 0, false, [], [], []⟩)]⟩
+
+/-- a push, a SYNC that fails towards b (backlog) and reaches c, another push, a SYNC that reaches both and
+carries both changes to b. -/
+def runBacklog : List (Step Nat) :=
+  [ .push ⟨[1], [], []⟩,
+    .pass 1000 Msg.empty (fun i => if i = 1 then (1, 1001) else (0, 1001)),
+    .push ⟨[], [2], []⟩,
+    .pass 1002 Msg.empty (fun _ => (0, 1003)) ]
+
+example :
+    MonoClocks 999 runBacklog ∧ lastNow 999 runBacklog = 1002 ∧
+    -- the ghost for b after each prefix of the run
+    missingAfter 1 runState0 [] (runBacklog.take 1) = [1] ∧
+    missingAfter 1 runState0 [] (runBacklog.take 2) = [1] ∧
+    (runState runState0 (runBacklog.take 2)).peers[1]? = some ("b", ⟨995, 1001, 0, false, [1], [], []⟩) ∧
+    missingAfter 1 runState0 [] (runBacklog.take 3) = [1, 2] ∧
+    missingAfter 1 runState0 [] runBacklog = [] ∧
+    -- the last pass: one SYNC to b with the queue item and the backlog, one to c with the queue item
+    (step (runState runState0 (runBacklog.take 3)) (.pass 1002 Msg.empty (fun _ => (0, 1003)))).1.peers[1]?
+      = some ("b", ⟨1003, 1003, 0, false, [], [], []⟩) ∧
+    (outIter (runState runState0 (runBacklog.take 3)) 1002 Msg.empty (fun _ => (0, 1003))).2
+      = [⟨1, .sync, 0, ⟨[1], [2], []⟩⟩, ⟨2, .sync, 0, ⟨[], [2], []⟩⟩] ∧
+    -- c never missed anything after a pass
+    missingAfter 2 runState0 [] (runBacklog.take 2) = [] ∧ missingAfter 2 runState0 [] runBacklog = [] ∧
+    (runState runState0 runBacklog).queue = [] := by decide
+
+/-- the hypotheses of `nothing_missing_when_idle` hold of this run (and its conclusion is the `[]` above). -/
+example : ¬ InResync (runState runState0 runBacklog).cfg 1002 (⟨1003, 1003, 0, false, [], [], []⟩ : Peer Nat) := by
+  unfold InResync; decide
+
+/-- an outage: b has been silent for 95 s.  The change is pushed, the pass sends a RESYNC to b that fails
+and a SYNC to c that pops the queue — the change is now neither queued nor in b's backlog, b is in the
+resync period (first disjunct of the invariant).  Ten seconds later the RESYNC is delivered: b misses
+nothing, and is out of the resync period. -/
+def runOutage : List (Step Nat) :=
+  [ .push ⟨[1], [], [2]⟩,
+    .pass 1000 ⟨[1], [], [2]⟩ (fun i => if i = 1 then (2, 1001) else (0, 1001)),
+    .pass 1011 ⟨[1], [], [2]⟩ (fun _ => (0, 1012)) ]
+
+def runState1 : TState Nat :=
+  ⟨"a", Periods.default, [],
+   [("a", Peer.init false), ("b", ⟨905, 905, 0, false, [], [7], []⟩), ("c", ⟨995, 995, 0, false, [], [], []⟩)]⟩
+
+example :
+    MonoClocks 999 runOutage ∧ lastNow 999 runOutage = 1011 ∧
+    missingAfter 1 runState1 [] (runOutage.take 2) = [1, 2] ∧
+    (outIter (push runState1 ⟨[1], [], [2]⟩) 1000 ⟨[1], [], [2]⟩ (fun i => if i = 1 then (2, 1001) else (0, 1001))).2
+      = [⟨1, .resync, 0, ⟨[1], [], [2]⟩⟩, ⟨2, .sync, 0, ⟨[1], [], [2]⟩⟩] ∧
+    (runState runState1 (runOutage.take 2)).queue = [] ∧
+    (runState runState1 (runOutage.take 2)).peers[1]? = some ("b", ⟨905, 1001, 0, false, [], [], []⟩) ∧
+    missingAfter 1 runState1 [] runOutage = [] ∧
+    (runState runState1 runOutage).peers[1]? = some ("b", ⟨1012, 1012, 0, false, [], [], []⟩) ∧
+    (runState runState1 runOutage).queue = [] := by decide
+
+example : InResync runState1.cfg 1000 (⟨905, 1001, 0, false, [], [], []⟩ : Peer Nat) ∧
+    ¬ InResync runState1.cfg 1011 (⟨1012, 1012, 0, false, [], [], []⟩ : Peer Nat) := by
+  unfold InResync; decide
+
+/-! ### the hypotheses are needed: counter-runs -/
+
+/-- **decision clocks going backwards** (`hmono` dropped).  b has been silent for 100 s: at clock 1000 it is
+in the resync period (no RESYNC due yet), c takes the SYNC and pops the queue.  The next pass reads clock 950:
+b is NOT in the resync period at 950, its backlog is empty, the queue is empty — and b misses the change.
+(Only the conclusion of `nothing_missing_when_idle` fails; `¬ MonoClocks`.) -/
+example :
+    let s0 : TState Nat := ⟨"a", Periods.default, [],
+      [("a", Peer.init false), ("b", ⟨900, 995, 0, false, [], [], []⟩), ("c", ⟨995, 995, 0, false, [], [], []⟩)]⟩
+    let steps : List (Step Nat) := [.push ⟨[1], [], []⟩, .pass 1000 Msg.empty (fun _ => (0, 1000)),
+      .pass 950 Msg.empty (fun _ => (0, 950))]
+    ¬ MonoClocks 999 steps ∧ lastNow 999 steps = 950 ∧
+    missingAfter 1 s0 [] steps = [1] ∧
+    (runState s0 steps).peers[1]? = some ("b", ⟨900, 995, 0, false, [], [], []⟩) ∧
+    (runState s0 steps).queue = [] ∧ 950 - (900 : Int) < Periods.default.periodResync := by decide
+
+/-- **negative `last_comms`** (`hlc` dropped; only possible with a hand-made device entry and negative
+clocks).  At clock -30 b (`last_comms = -100`) is in the resync period, c pops the queue; then a RESET
+from b sets its `last_comms` to 0 and at clock -30 b is no longer in the resync period: nothing queued,
+no backlog, and b misses the change. -/
+example :
+    let s0 : TState Nat := ⟨"a", Periods.default, [],
+      [("a", Peer.init false), ("b", ⟨-100, -31, 0, false, [], [], []⟩), ("c", ⟨-35, -35, 0, false, [], [], []⟩)]⟩
+    let steps : List (Step Nat) := [.push ⟨[1], [], []⟩, .pass (-30) Msg.empty (fun _ => (0, -30)), .incoming 1 1]
+    MonoClocks (-30) steps ∧ lastNow (-30) steps = -30 ∧
+    missingAfter 1 s0 [] steps = [1] ∧
+    (runState s0 steps).peers[1]? = some ("b", ⟨0, 0, 1, false, [], [], []⟩) ∧
+    (runState s0 steps).queue = [] ∧ (-30 : Int) - 0 < Periods.default.periodResync := by decide
+
+/-- **the instance's own entry** (`hself` dropped): index 0 is "a" itself; it is skipped by the loop, c
+pops the queue, and "a" would "miss" the change forever. -/
+example :
+    let steps : List (Step Nat) := [.push ⟨[1], [], []⟩, .pass 1000 Msg.empty (fun _ => (0, 1000))]
+    missingAfter 0 runState0 [] steps = [1] ∧ (runState runState0 steps).queue = [] ∧
+    (runState runState0 steps).peers[0]? = some ("a", Peer.init false) := by decide
 
 end Bobo.Tcp
